@@ -10,6 +10,9 @@ import json, os, subprocess, sys, time, re
 
 SCR = sys.argv[1] if len(sys.argv) > 1 else "/tmp/sens"
 ONLY = set(sys.argv[2:])
+# several batteries may run side by side in different scratch dirs: each writes its own JSON
+# (SENS_OUT) and `sensitivity.py --merge a.json b.json ...` folds them into SENSITIVITY.json / .md
+OUT = os.environ.get("SENS_OUT", "/verif/SENSITIVITY.json")
 
 # (id, property/checks, file, old, new, description)
 M = [
@@ -85,7 +88,7 @@ def main():
     repo = f"{SCR}/repo"
     results = []
     try:
-        old = json.load(open("/verif/SENSITIVITY.json"))
+        old = json.load(open(OUT))
     except Exception:
         old = []
     keep = {r["id"]: r for r in old}
@@ -113,9 +116,15 @@ def main():
         rec["detected"] = any(v.get("exit") == 1 for v in rec["checks"].values())
         keep[mid] = rec
         print(mid, "detected" if rec["detected"] else "MISSED", rec["checks"], flush=True)
-        json.dump(sorted(keep.values(), key=lambda r: r["id"]), open("/verif/SENSITIVITY.json", "w"), indent=1)
-    json.dump(sorted(keep.values(), key=lambda r: r["id"]), open("/verif/SENSITIVITY.json", "w"), indent=1)
+        json.dump(sorted(keep.values(), key=lambda r: r["id"]), open(OUT, "w"), indent=1)
+    json.dump(sorted(keep.values(), key=lambda r: r["id"]), open(OUT, "w"), indent=1)
     sh(f"git -C {repo} checkout -q -- .")
+    if OUT == "/verif/SENSITIVITY.json":
+        write_md(keep)
+    print("done")
+
+
+def write_md(keep):
     rows = sorted(keep.values(), key=lambda r: r["id"])
     with open("/verif/SENSITIVITY.md", "w") as f:
         f.write("# Sensitivity runs (deliberate property-breaking edits in a scratch worktree)\n\n")
@@ -127,6 +136,18 @@ def main():
             if not det and r['id'] in NOTES:
                 det = "no — " + NOTES[r['id']]
             f.write(f"| {r['id']} | {r['desc']} | {r['file']} | {cs or r.get('status')} | {det} |\n")
-    print("done")
 
-main()
+
+if len(sys.argv) > 1 and sys.argv[1] == "--merge":
+    try:
+        keep = {r["id"]: r for r in json.load(open("/verif/SENSITIVITY.json"))}
+    except Exception:
+        keep = {}
+    for fn in sys.argv[2:]:
+        for r in json.load(open(fn)):
+            keep[r["id"]] = r
+    json.dump(sorted(keep.values(), key=lambda r: r["id"]), open("/verif/SENSITIVITY.json", "w"), indent=1)
+    write_md(keep)
+    print("merged", len(keep))
+else:
+    main()
